@@ -266,7 +266,7 @@ def check_exprs(exprs, style, stats=None):
             td = run_trace(rd["code"])
         except ic10vm.VMError:
             td = []
-        if "out of registers" not in desc and len(td) == len(exprs) and all(math.isfinite(x) for x in td):
+        if not oracle.out_of_registers(desc) and len(td) == len(exprs) and all(math.isfinite(x) for x in td):
             raise Violation("C03:folding-rejects-an-expression-the-run-time-form-computes:" + oracle.error_class(desc).split(":")[0],
                             {"expressions": [e.render(False, {}) for e in exprs], "error": desc[:300], "run_time_values": td, "style": style})
         if stats is not None:
